@@ -324,6 +324,9 @@ def judge_case(ctx, script, mode, inject_at=None, transport="udp", n_sends=3, sa
     if inject_at is not None and any(kind == "inject_server_disconnect" for _t, kind, _i in log):
         ctx.count("server_disconnects_injected")
     ctx.count(f"runs_{mode}_{transport}")
+    raised = sum(1 for _t, k, _i in log if k == "rx_raised")
+    if raised:
+        ctx.count("receive_path_exceptions_recorded", raised)
     if kw.get("connect_fault"):
         ctx.count(f"runs_connect_fault_{kw['connect_fault']}")
         if any(k == "rx" and i.get("type") == "ConnectResponse" for _t, k, i in log[3:]):
